@@ -183,6 +183,10 @@ class Gen:
             if k < 0.4:
                 self.ops.append("fault ns %d %d" % (r.randrange(1, 4), r.randrange(1, 4)))
             elif k < 0.7:
+                if r.random() < 0.5:
+                    # the client library is shown N EAGAINs on its notification byte before the harness
+                    # parks it (the library spins there; a library that gives up has already queued the request)
+                    self.ops.append("fault spin %d" % r.choice([1, 2, 7, 100, 300, 3000, 40000]))
                 self.ops.append("fault park %d" % r.randrange(1, 3))
             elif k < 0.85:
                 self.ops.append("S sndbuf 1")
@@ -220,6 +224,22 @@ def gen_case(rng, nops=None):
         if rng.random() < 0.5:
             g.ops.append("S run")
             g.ops.append("C poll")
+    elif style < 0.38 and style >= 0.30 and g.tr == "shm":
+        # request burst while the server does not run: the client's notification byte meets a full
+        # socket (tiny SO_SNDBUF and/or declared full) for a long time -- the library has to keep
+        # trying (spin), the harness parks it, the server is run, the client resumes
+        g.small = True
+        if rng.random() < 0.5:
+            g.ops.append("C sndbuf 1")
+        for _ in range(rng.randrange(2, 6)):
+            g.csend()
+        for _ in range(rng.randrange(1, 4)):
+            g.ops.append("fault spin %d" % rng.choice([1, 5, 130, 1100, 20000, 70000]))
+            g.ops.append("fault park %d" % rng.randrange(1, 3))
+            for _ in range(rng.randrange(1, 8)):
+                g.csend()
+            g.ops.append("S run %d" % rng.randrange(1, 4))
+            g.ops.append("C resume")
     elif style < 0.30:
         # request burst with plans, then the server drains under changing rate limits
         g.small = True
